@@ -306,6 +306,11 @@ func alphabet() []Step {
 	return []Step{
 		emptyCall("where", "empty_string"), emptyCall("where", "empty_map"), emptyCall("where", "empty_struct"),
 		emptyCall("not", "empty_map"), emptyCall("not", "empty_string"), emptyCall("or", "empty_string"), emptyCall("or", "empty_struct"),
+		{Call: &whr.Call{Kind: "where", Unit: whr.Unit{Form: "empty_map", Via: "mapss"}}},
+		{Call: &whr.Call{Kind: "where", Unit: whr.Unit{Form: "empty_map", Via: "nilmap"}}},
+		{Call: &whr.Call{Kind: "not", Unit: whr.Unit{Form: "empty_struct", Via: "slice"}}},
+		{Call: &whr.Call{Kind: "where", Unit: whr.Unit{Form: "group"}}},
+		{Call: &whr.Call{Kind: "or", Unit: whr.Unit{Form: "group"}}},
 		{Deco: "empty_slice"}, {Deco: "order"}, {Deco: "limit"}, {Deco: "unscoped"}, {Deco: "select"}, {Deco: "omit"}, {Deco: "table"}, {Deco: "scopes"},
 		{Deco: "session_pu"}, {Deco: "session_misc"}, {Deco: "session_plain"},
 	}
@@ -338,7 +343,7 @@ func main() {
 		o := e.run(in)
 		eff := in.PK != 0
 		for _, s := range in.Steps {
-			if s.Call != nil && !strings.HasPrefix(s.Call.Unit.Form, "empty") {
+			if s.Call != nil && !whr.IsEmptyUnit(s.Call.Unit) {
 				eff = true
 			}
 		}
